@@ -23,7 +23,7 @@ def gen_files(ctx, label, n):
                 ast = instgen.gen_ast(rng, maxS=13, maxP=14, S=rng.randint(12, 13), P=P, L=P,
                                       force_pairs=[(11, 1), (1, 11), (12, 1), (2, 11), (1, 12)])
         else:
-            ast = instgen.gen_ast(rng)
+            ast = instgen.gen_ast(rng, superfluous=True)
         twopl = rng.random() < 0.6
         messy = rng.random() < 0.5
         text = instgen.render(ast, rng if messy else None, trailer=rng.random() < 0.5,
